@@ -25,6 +25,7 @@ class SuiteSparseSolver:
         self.factorize = True
         self.new_A = False  # does not need to handle new A in suitesparse solvers
         self.use_linsolve = False
+        self._pattern = None  # sparsity pattern that ``self.F`` was computed for
 
     def clear(self):
         """
@@ -36,6 +37,22 @@ class SuiteSparseSolver:
         self.N = None   # numeric factorization
         self.factorize = True
         self.use_linsolve = False
+        self._pattern = None
+
+    @staticmethod
+    def _get_pattern(A):
+        """
+        Return a hashable description of the sparsity pattern of ``A``.
+
+        KLU does not verify that a symbolic factorization matches the matrix
+        passed to ``numeric``: a stale one corrupts memory instead of raising
+        an error. The pattern is therefore tracked here.
+        """
+        try:
+            colptr, rowind, _ = A.CCS
+            return A.size, np.asarray(colptr).tobytes(), np.asarray(rowind).tobytes()
+        except AttributeError:
+            return None
 
     def _symbolic(self, A):
         """
@@ -117,8 +134,14 @@ class SuiteSparseSolver:
         self.A = A
         self.b = b
 
+        # the cached symbolic factorization is only valid for the pattern it was made for
+        pattern = self._get_pattern(self.A)
+        if pattern != self._pattern:
+            self.factorize = True
+
         if self.factorize is True:
             self.F = self._symbolic(self.A)
+            self._pattern = pattern
             self.factorize = False
 
         try:
